@@ -9,8 +9,8 @@ paths of association.go, tied to the code by the direct-drive correspondence run
 What is covered here: the sender half of the statement — *the peer is told to skip exactly the abandoned messages*:
 which TSNs the advanced peer ack point (the "new cumulative TSN" of FORWARD-TSN / I-FORWARD-TSN) walks over, that it
 walks as far as it can, that the chunk is (re)sent until the peer confirms it, what its stream list contains, that
-abandonment is permanent and touches only messages whose stream policy allows it, and which retransmission paths can
-still put an abandoned chunk on the wire.
+abandonment is permanent and touches only messages whose stream policy allows it, and that no retransmission path flags
+or sends an abandoned chunk.
 
 What is NOT covered here (still exploration level: the e2e `pr` scenarios and their predicates): the RECEIVER half
 (`handleForwardTSN` / `forwardTSNFor*`: nothing that was not abandoned is discarded, later messages are delivered) and
@@ -246,31 +246,23 @@ example :
   simp only [List.mem_cons, List.not_mem_nil, or_false] at hop
   rcases hop with h | h | h | h | h | h | h | h | h | h <;> subst h <;> simp [KeepsRel] <;> decide
 
-/-
-FULL STATEMENT (as asked for): "no retransmission path — `gatherRtx`, `gatherFast`, T3 marking, RACK/PTO marks — puts an
-abandoned chunk on the wire or marks it."  It is FALSE for `gatherRtx` (`getDataPacketsToRetransmit`): that loop takes
-every chunk that carries the `retransmit` flag and never looks at `abandoned()`. A chunk can carry the flag AND be abandoned
-when it was flagged first and its message became abandoned afterwards (the tail of its message went in flight later, or a
-sibling fragment exhausted the retransmission limit, or the fast-retransmit gather — which does not clear the flag — sent
-it for the last permitted time). `C07_abandoned_retransmitted_witness` decides such a run; the implementation behaves the
-same (corpus/C07/known/d21_abandoned_chunk_retransmitted.ops: `DATA:101` and `FWD:102` leave in the same gather).
-What IS true is the theorem below.
--/
-
-/-- **Retransmission paths and `abandoned()`** (partial: see the comment above). For EVERY state:
+/-- **No retransmission path flags or sends an abandoned chunk.** For EVERY state:
 (1) a T3 expiry flags exactly the in-flight chunks that are neither acked nor abandoned and changes nothing else in the queue;
 (2) RACK / PTO marks flag only chunks that are neither acked nor abandoned;
 (3) the fast-retransmit gather puts on the wire only chunks that are neither acked nor abandoned;
-(4) the T3 retransmission gather puts on the wire exactly chunks that carry the `retransmit` flag.
-Hence an abandoned chunk is never FLAGGED, and it goes on the wire again only if it was flagged before it was abandoned —
-at most once, because (4) clears the flag and (1), (2) never set it again. -/
-theorem C07_abandoned_not_retransmitted_partial (s : St) :
+(4) the T3 retransmission gather (`getDataPacketsToRetransmit`) puts on the wire only chunks that carry the `retransmit` flag
+and are not abandoned — "abandoned" as the loop sees it, including abandonments made earlier in the same gather.
+(Before the fix of finding D21 clause (4) was false: the loop did not test `abandoned()`, so a chunk flagged while its
+message was not yet abandoned — tail fragment still pending — was retransmitted after the message had been abandoned, in the
+very gather that emitted the FORWARD-TSN skipping it. The witness is now the regression theorem below and the op file
+corpus/C06/d21_abandoned_chunk_retransmitted.ops.) -/
+theorem C07_abandoned_not_retransmitted (s : St) :
     ((t3 s).inflight = s.inflight.map (fun c => if c.acked || s.abandoned c then c else { c with retransmit := true })) ∧
     (∀ marks, (applyMarks s marks).inflight =
       s.inflight.map fun c => if marks.contains c.tsn && !c.acked && !s.abandoned c then { c with retransmit := true } else c) ∧
     (∀ (B : Type) (allow : B → Int → Bool × B) (b : B), ∀ x ∈ (gatherFast s allow b).2,
       ∃ c ∈ s.inflight, x = fastUpd { s with willRetransmitFast := false } c ∧ c.acked = false ∧ s.abandoned c = false) ∧
-    (∀ orc, ∀ x ∈ (gatherRtx s orc).2.1, ∃ c ∈ s.inflight, c.retransmit = true ∧ x = rtxUpd s c) :=
+    (∀ orc, ∀ x ∈ (gatherRtx s orc).2.1, ∃ c ∈ s.inflight, c.retransmit = true ∧ s.abandoned c = false ∧ x = rtxUpd s c) :=
   ⟨t3_inflight s, fun _ => rfl, fun _ allow b => gatherFast_skips_abandoned s allow b, gatherRtx_sends_flagged s⟩
 
 /-- non-vacuity of (1) and (3): after T3 the abandoned chunk 100 is not flagged, the reliable chunk 101 is -/
@@ -279,19 +271,18 @@ example :
       [.openS 1 false 0 0 0, .openS 2 false 1 0 0, .write 2 53 10, .write 1 53 30, .gather freeOracle [0, 0]]
     (t3 s).inflight.map (fun c => (c.tsn, c.retransmit, s.abandoned c)) = [(100#32, false, true), (101#32, true, false)] := by decide
 
-/-- **Witness: an abandoned chunk IS retransmitted** (finding D21; the negation of the full statement at a concrete run).
-Stream 2 allows no retransmission; its message has two fragments, the tail is held back by the peer's window. T3 flags
-the head (TSN 101) while the message is not `abandoned()` yet; the next gather cannot retransmit it (window) but sends the
-tail, which makes the message `abandoned()`. After the next SACK the state has TSN 101 abandoned AND flagged, the advanced
-peer ack point at 102 — and the gather retransmits 101 (second transmission under a limit of zero retransmissions)
-together with the FORWARD-TSN that skips it. -/
-theorem C07_abandoned_retransmitted_witness :
+/-- **Regression for finding D21** (the run that used to retransmit an abandoned chunk). Stream 2 allows no retransmission;
+its message has two fragments, the tail is held back by the peer's window. T3 flags the head (TSN 101) while the message is
+not `abandoned()` yet; the next gather cannot retransmit it (window) but sends the tail, which makes the message
+`abandoned()`. After the next SACK TSN 101 is abandoned AND still flagged, the advanced peer ack point is at 102 — and the
+gather retransmits NOTHING, it only emits the FORWARD-TSN that skips 101 and 102. -/
+theorem C07_d21_regression :
     let s := run (init { mtu := 1200, maxPayload := 1172, minCwnd := 20000 } 100 2200)
       [.openS 1 false 0 0 0, .openS 2 false 1 0 0, .write 1 53 1000, .write 2 53 1272,
        .gather freeOracle [0, 0, 0], .t3, .sack 99 2700 [] [], .gather freeOracle [0], .sack 100 65536 [] []]
     s.inflight.map (fun c => (c.tsn, c.retransmit, s.abandoned c)) = [(101#32, true, true), (102#32, false, true)] ∧
     s.advPeerAck = 102#32 ∧
-    (gatherRtx s freeOracle).2.1.map (fun c => (c.tsn, c.nSent)) = [(101#32, 2#32)] ∧
+    (gatherRtx s freeOracle).2.1 = [] ∧ (gather s freeOracle []).2.packets = [] ∧
     ((gather s freeOracle []).2.fwd == some (.fwd 102 [(2, 0)])) = true := by decide
 
 end C07
